@@ -264,3 +264,96 @@ pub fn parse_mem_dump(lines: &[&str]) -> Option<(Vec<u8>, Vec<usize>)> {
     }
     Some((bytes, rows))
 }
+
+#[derive(Clone, Copy, Debug, Default)]
+pub struct Rusage {
+    pub maxrss_kb: u64,
+    /// user + system CPU time of the child
+    pub cpu_s: f64,
+}
+
+/// like run_cli (closed stdin, not interpreted) but reaps the child with wait4 so that its own
+/// resource usage (peak resident set, CPU time) is known
+pub fn run_cli_rusage(source: &[u8], out_cap: usize, timeout_ms: u64) -> (CliOut, Rusage) {
+    let n = COUNTER.fetch_add(1, Ordering::Relaxed);
+    let _ = std::fs::create_dir_all(TMP_DIR);
+    let base = format!("{}/r{}-{}", TMP_DIR, std::process::id(), n);
+    let src_path = format!("{}.s", base);
+    let out_path = format!("{}.out", base);
+    let err_path = format!("{}.err", base);
+    let fail = |e: String| (CliOut { stdout: vec![], stderr: vec![], status: Status::SpawnError(e), wall_ms: 0 }, Rusage::default());
+    if let Err(e) = std::fs::write(&src_path, source) {
+        return fail(format!("write: {}", e));
+    }
+    let (outf, errf) = match (std::fs::File::create(&out_path), std::fs::File::create(&err_path)) {
+        (Ok(a), Ok(b)) => (a, b),
+        _ => return fail("cannot create output files".into()),
+    };
+    let mut cmd = Command::new(CLI_BIN);
+    cmd.arg(&src_path).env_clear().env("RUST_BACKTRACE", "0").stdin(Stdio::null()).stdout(Stdio::from(outf)).stderr(Stdio::from(errf));
+    unsafe {
+        use std::os::unix::process::CommandExt;
+        cmd.pre_exec(move || {
+            let l = libc::rlimit { rlim_cur: DEFAULT_LIMITS.as_bytes, rlim_max: DEFAULT_LIMITS.as_bytes };
+            libc::setrlimit(libc::RLIMIT_AS, &l);
+            let c = libc::rlimit { rlim_cur: 0, rlim_max: 0 };
+            libc::setrlimit(libc::RLIMIT_CORE, &c);
+            Ok(())
+        });
+    }
+    let t0 = Instant::now();
+    let child = match cmd.spawn() {
+        Ok(c) => c,
+        Err(e) => return fail(format!("{}", e)),
+    };
+    let pid = child.id() as libc::pid_t;
+    // the child is reaped by wait4 below; forget the handle so that std does not wait again
+    std::mem::forget(child);
+    let deadline = t0 + Duration::from_millis(timeout_ms);
+    let mut ru: libc::rusage = unsafe { std::mem::zeroed() };
+    let mut st: libc::c_int = 0;
+    let status;
+    let mut killed: Option<Status> = None;
+    loop {
+        let r = unsafe { libc::wait4(pid, &mut st, libc::WNOHANG, &mut ru) };
+        if r == pid {
+            status = if let Some(k) = killed.take() {
+                k
+            } else if libc::WIFEXITED(st) {
+                Status::Exit(libc::WEXITSTATUS(st))
+            } else if libc::WIFSIGNALED(st) {
+                Status::Signal(libc::WTERMSIG(st))
+            } else {
+                Status::SpawnError("unknown wait status".into())
+            };
+            break;
+        }
+        if r < 0 {
+            status = Status::SpawnError("wait4 failed".into());
+            break;
+        }
+        if killed.is_none() {
+            let sz = std::fs::metadata(&out_path).map(|m| m.len()).unwrap_or(0) as usize;
+            if sz > out_cap {
+                unsafe { libc::kill(pid, libc::SIGKILL) };
+                killed = Some(Status::OutputCap);
+            } else if Instant::now() > deadline {
+                unsafe { libc::kill(pid, libc::SIGKILL) };
+                killed = Some(Status::Timeout);
+            }
+        }
+        let el = t0.elapsed().as_millis();
+        std::thread::sleep(Duration::from_micros(if el < 30 { 500 } else if el < 500 { 3000 } else { 20000 }));
+    }
+    let wall_ms = t0.elapsed().as_millis() as u64;
+    let mut stdout = std::fs::read(&out_path).unwrap_or_default();
+    if stdout.len() > out_cap + 4096 {
+        stdout.truncate(out_cap + 4096);
+    }
+    let stderr = std::fs::read(&err_path).unwrap_or_default();
+    for p in [&src_path, &out_path, &err_path] {
+        let _ = std::fs::remove_file(p);
+    }
+    let cpu = ru.ru_utime.tv_sec as f64 + ru.ru_utime.tv_usec as f64 / 1e6 + ru.ru_stime.tv_sec as f64 + ru.ru_stime.tv_usec as f64 / 1e6;
+    (CliOut { stdout, stderr, status, wall_ms }, Rusage { maxrss_kb: ru.ru_maxrss as u64, cpu_s: cpu })
+}
